@@ -135,3 +135,87 @@ func HarnessC14Skip(L int) {
 		vreach("C14.skip.err")
 	}
 }
+
+// vSetLangLen replaces every fixed-size code field (ISO 639 language / country codes, 3 bytes in the formats) of the
+// descriptor by a slice of L bytes: the writers pad or cut these fields to 3 bytes, and the length calculators must
+// agree with them whatever the slice length is
+func vSetLangLen(d *Descriptor, L int) bool {
+	code := func() []byte { return vnondetBytes(L) }
+	switch d.Tag {
+	case DescriptorTagComponent:
+		d.Component.ISO639LanguageCode = code()
+	case DescriptorTagExtendedEvent:
+		d.ExtendedEvent.ISO639LanguageCode = code()
+	case DescriptorTagISO639LanguageAndAudioType:
+		d.ISO639LanguageAndAudioType.Language = code()
+	case DescriptorTagShortEvent:
+		d.ShortEvent.Language = code()
+	case DescriptorTagLocalTimeOffset:
+		for _, it := range d.LocalTimeOffset.Items {
+			it.CountryCode = code()
+			// the polarity flag is the last bit of its byte: case-split it (a merged CRC state is not syntactically
+			// equal to the one-pass CRC, see DESIGN.md)
+			it.LocalTimeOffsetPolarity = vrange(0, 1) == 1
+		}
+	case DescriptorTagParentalRating:
+		for _, it := range d.ParentalRating.Items {
+			it.CountryCode = code()
+		}
+	case DescriptorTagSubtitling:
+		for _, it := range d.Subtitling.Items {
+			it.Language = code()
+		}
+	case DescriptorTagTeletext:
+		for _, it := range d.Teletext.Items {
+			it.Language = code()
+		}
+	case DescriptorTagVBITeletext:
+		for _, it := range d.VBITeletext.Items {
+			it.Language = code()
+		}
+	case DescriptorTagExtension:
+		if d.Extension.SupplementaryAudio == nil || !d.Extension.SupplementaryAudio.HasLanguageCode {
+			return false
+		}
+		d.Extension.SupplementaryAudio.LanguageCode = code()
+	default:
+		return false
+	}
+	return true
+}
+
+// HarnessC14LangLen: descriptor_length, the loop length and the PMT section_length equal the bytes emitted when a
+// 3-byte code field of the value is given with L bytes (C14, C09)
+func HarnessC14LangLen(idx, L int) {
+	d := vModelDescriptor(idx, 0)
+	if !vSetLangLen(d, L) {
+		vreach("C14.langlen.end")
+		return
+	}
+	d.Length = vnondetU8()
+	vassume(d.Length != 0)
+	sink := newVSink()
+	w := astikit.NewBitsWriter(astikit.BitsWriterOptions{Writer: sink})
+	n, err := writeDescriptorsWithLength(w, []*Descriptor{d, {Tag: DescriptorTagStreamIdentifier, Length: 1, StreamIdentifier: &DescriptorStreamIdentifier{ComponentTag: 0x5a}}})
+	vassert("C14.langlen.err", err == nil)
+	out := sink.buf
+	vassert("C14.langlen.n", n == len(out) && len(out) >= 4)
+	vassert("C14.langlen.loop", int(uint16(out[0]&0xf)<<8|uint16(out[1])) == len(out)-2)
+	dl := vconcrete(int(out[3]))
+	// the stream identifier descriptor follows exactly behind the declared length
+	vassert("C14.langlen.desc", 4+dl+3 == len(out) && out[4+dl] == DescriptorTagStreamIdentifier && out[4+dl+1] == 1 && out[4+dl+2] == 0x5a)
+	// the same descriptor inside a PMT: section_length and CRC_32 (C09)
+	pmt := &PMTData{ProgramNumber: 1, PCRPID: 0x100, ElementaryStreams: []*PMTElementaryStream{{StreamType: StreamTypeAACAudio, ElementaryPID: 0x100, ElementaryStreamDescriptors: []*Descriptor{d}}}}
+	sec := &PSISection{Header: &PSISectionHeader{TableID: PSITableIDPMT, SectionSyntaxIndicator: true},
+		Syntax: &PSISectionSyntax{Header: &PSISectionSyntaxHeader{TableIDExtension: 1, CurrentNextIndicator: true}, Data: &PSISectionSyntaxData{PMT: pmt}}}
+	sec.Header.SectionLength = calcPSISectionLength(sec)
+	sink2 := newVSink()
+	w2 := astikit.NewBitsWriter(astikit.BitsWriterOptions{Writer: sink2})
+	_, err = writePSIData(w2, &PSIData{Sections: []*PSISection{sec}})
+	vassert("C09.out.desc.err", err == nil)
+	got := sink2.buf[1:]
+	vassert("C09.out.desc.length", int(uint16(got[1]&0xf)<<8|uint16(got[2])) == len(got)-3)
+	crc := uint32(got[len(got)-4])<<24 | uint32(got[len(got)-3])<<16 | uint32(got[len(got)-2])<<8 | uint32(got[len(got)-1])
+	vassert("C09.out.desc.crc", crc == computeCRC32(got[:len(got)-4]))
+	vreach("C14.langlen.end")
+}
